@@ -192,10 +192,18 @@ def enrich(m, rng, P=''):
     return r
 
 
+def _one_per_line(m):
+    """The mutators are line based (one declaration element per line, see module text): attributes the generator would print
+    merged into one clause (`a, b : T;`, vf/gen_schema.py feature merged_attr_decls) are printed one per clause here."""
+    for e in m.entities:
+        e.merge_decls = False
+    return m
+
+
 def single(seed, i):
     rng = random.Random('c04v/%d/%d' % (seed, i))
-    m = gen_schema.Gen(random.Random('v/%d/%d' % (seed, i))).schema('v%d_%d' % (seed, i))   # == gen_schema.corpus(seed, n, prefix='v')[i]
-    return File([enrich(m, rng)], tags=['single'] + sorted(m.tags))
+    m = _one_per_line(gen_schema.Gen(random.Random('v/%d/%d' % (seed, i))).schema('v%d_%d' % (seed, i)))
+    return File([enrich(m, rng)], tags=['single'] + sorted(m.tags - {'merged_attr_decls'}))
 
 
 def multi(seed, i):
@@ -205,7 +213,7 @@ def multi(seed, i):
     rss = []
     for j in range(k):
         P = 'abc'[j] + '_'
-        m = gen_schema.Gen(random.Random('c04m/%d/%d/%d' % (seed, i, j))).schema('m%d_%d%s' % (seed, i, 'abc'[j]), n_entities=rng.randint(3, 5))
+        m = _one_per_line(gen_schema.Gen(random.Random('c04m/%d/%d/%d' % (seed, i, j))).schema('m%d_%d%s' % (seed, i, 'abc'[j]), n_entities=rng.randint(3, 5)))
         prefix_model(m, P)
         rss.append(enrich(m, random.Random('c04me/%d/%d/%d' % (seed, i, j)), P))
     a, b = rss[0], rss[1]
